@@ -77,6 +77,10 @@ func genExpr(r *hx.Rng, c *ectx) string {
 		"secrets.TOKEN", "inputs.flag", "inputs.nope", "inputs.exclude", "vars.CONF", "toJSON(github)", "unknownfn()",
 		"github.", "1 == 'a' && true", "fromJSON('[1,2]').*", "fromJSON('{\"a\":1}').b", "job.status", "strategy.job-index",
 		"matrix.os", "matrix.zzz",
+		// JSON object keys that differ in letter case only are ONE property: which value's type it
+		// gets is decided by the text, not by the order in which the decoded map is walked
+		"fromJSON('[\"a\",\"b\"]')[fromJSON('{\"id\":1,\"Id\":true,\"ID\":\"x\"}').id]",
+		"fromJSON('{\"k\":\"s\",\"K\":1,\"kK\":true,\"Kk\":[1]}').k.foo",
 	}
 	switch c.matrix {
 	case mX:
